@@ -70,7 +70,13 @@ pub async fn semantic_tokens(
             line: 0,
             character: 0,
         };
-        let semantic_tokens: Vec<SemanticToken> = ast
+        // comments behind the last declaration belong to no declaration
+        let declarations_end = ast
+            .global_declarations
+            .last()
+            .map_or(0, |gd| gd.offset + gd.to_range().end);
+        let trailing_tokens = AstInfo::new(declarations_end..tokens.len());
+        let mut semantic_tokens: Vec<SemanticToken> = ast
             .global_declarations
             .iter()
             .flat_map(|gd| {
@@ -85,6 +91,12 @@ pub async fn semantic_tokens(
                 }
             })
             .collect();
+        semantic_tokens.extend(collect_error(
+            &trailing_tokens,
+            &text,
+            &tokens,
+            &mut previous_token_pos,
+        ));
         Ok(Some(SemanticTokens {
             result_id: None,
             data: semantic_tokens,
